@@ -512,8 +512,15 @@ theorem all_head {P : Char → Prop} {s : Str} (h : ∀ x ∈ s, P x) {c : Char}
 theorem all_last {P : Char → Prop} {s : Str} (h : ∀ x ∈ s, P x) {c : Char} (hc : s.getLast? = some c) : P c :=
   h c (List.mem_of_getLast? hc)
 
-theorem pyInt_natStr (n : Nat) : pyInt (natStr n) = some (Int.ofNat n) := by
+theorem pyInt_ascii (s : Str) (h : ∀ c ∈ s, c.toNat < 128) : pyInt s = pyIntAscii s := by
   unfold pyInt
+  rw [if_pos (by rw [List.all_eq_true]; intro c hc; simpa using h c hc)]
+
+theorem isDig_ascii {c : Char} (h : IsDig c) : c.toNat < 128 := by unfold IsDig at h; omega
+
+theorem pyInt_natStr (n : Nat) : pyInt (natStr n) = some (Int.ofNat n) := by
+  rw [pyInt_ascii _ (fun c hc => isDig_ascii (natStr_isDig n c hc))]
+  unfold pyIntAscii
   have hd := natStr_isDig n
   rw [lstripP_id _ _ (fun c hc => isDig_not_intBlank (all_head hd hc)),
       rstripP_id _ _ (fun c hc => isDig_not_intBlank (all_last hd hc))]
@@ -531,7 +538,12 @@ theorem pyInt_natStr (n : Nat) : pyInt (natStr n) = some (Int.ofNat n) := by
       rw [← hs, digitsVal_natStr]; rfl
 
 theorem pyInt_neg_natStr (n : Nat) : pyInt ('-' :: natStr n) = some (- Int.ofNat n) := by
-  unfold pyInt
+  rw [pyInt_ascii _ (by
+    intro c hc
+    rcases List.mem_cons.mp hc with rfl | hc
+    · decide
+    · exact isDig_ascii (natStr_isDig n c hc))]
+  unfold pyIntAscii
   have hd := natStr_isDig n
   rw [lstripP_id _ _ (by intro c hc; simp at hc; subst hc; decide),
       rstripP_id _ _ (by
